@@ -90,7 +90,7 @@ func (e *axEnv) SimPadded(tx axTx) (sdk.Result, error) {
 	return res, nil
 }
 
-var c10Deltas = []int64{-1, -1, -17, -1000, -50_000, -1_200_000, 0, 0, 0, 1, 1, 5000}
+var c10Deltas = []int64{-1000, -50_000, -1_200_000, 0, 0, 0, 0, 1, 1, 5000}
 
 func c10SweepDraw(rt *rapid.T) c10SweepCase {
 	c := c10SweepCase{NAcc: rapid.IntRange(2, 3).Draw(rt, "nacc")}
@@ -111,7 +111,12 @@ func c10SweepDraw(rt *rapid.T) c10SweepCase {
 		c.T = goodTx(3)
 	}
 	for i := 0; i < 2; i++ {
-		c.Deltas = append(c.Deltas, rapid.SampledFrom(c10Deltas).Draw(rt, "delta"))
+		if i == 0 {
+			// one probe just below the need (mostly need-1), one at or around it
+			c.Deltas = append(c.Deltas, rapid.SampledFrom([]int64{-1, -1, -1, -2, -17}).Draw(rt, "below"))
+		} else {
+			c.Deltas = append(c.Deltas, rapid.SampledFrom(c10Deltas).Draw(rt, "delta"))
+		}
 		c.Restart = append(c.Restart, rapid.IntRange(0, 2).Draw(rt, "restart") == 0)
 		c.Join = append(c.Join, rapid.IntRange(0, 2).Draw(rt, "join") == 0)
 	}
@@ -292,7 +297,7 @@ func c10SweepExec(ctx *vk.Ctx, c c10SweepCase) error {
 func TestC10_Sweep(t *testing.T) {
 	vk.Run(t, vk.Spec[c10SweepCase]{
 		ID: "C10", Name: "TestC10_Sweep",
-		Rule: "rapid: prefix (1-2 txs) + tx T of 1-3 messages (state-writing calls, sends, deployments, scripts; 1 in 5 from the general grammar incl. failing messages); need N measured with ample gas on a reference chain and by two simulate queries; two fresh chains deliver T with GasWanted = N+delta, delta in {-1.2M..-1, 0, +1, +5000}, one third of them after an app restart, others with the last prefix tx moved into T's own block (same logical state, uncommitted); tx length kept independent of GasWanted by memo padding; non-trivial = an out-of-gas tx that passed the ante was checked for fee-only effects, or the same gas was reproduced at delta<=1, after a restart or behind an uncommitted predecessor",
+		Rule: "rapid: prefix (1-2 txs) + tx T of 1-3 messages (state-writing calls, sends, deployments, scripts; 1 in 5 from the general grammar incl. failing messages); need N measured with ample gas on a reference chain and by two simulate queries; two fresh chains deliver T with GasWanted = N+delta (first delta in {-1,-2,-17}, second in {-1.2M, -50k, -1000, 0, +1, +5000}), one third of them after an app restart, others with the last prefix tx moved into T's own block (same logical state, uncommitted); tx length kept independent of GasWanted by memo padding; non-trivial = an out-of-gas tx that passed the ante was checked for fee-only effects, or the same gas was reproduced at delta<=1, after a restart or behind an uncommitted predecessor",
 		Draw: c10SweepDraw, Exec: c10SweepExec,
 	})
 }
